@@ -76,7 +76,9 @@ written for, or - where that check cannot see the change by construction - by th
 check named in the last column. Twelve patches had to be re-created on top of later
 repairs that touch the same lines (`patch.as-confirmed.diff` keeps the author's
 version; the suite still passes and the author's demonstration still fails with
-the re-created patch).
+the re-created patch). The regression ran on the tree at `d72f69a`; six repairs were made after it
+(second hunt). 116 patches still apply to the final tree; `C14-r2-1`, `C18-1` and `C19-2` conflict with those
+last repairs and were last verified on `d72f69a` (`applies_up_to` in their `meta.json`).
 
 Several changes were **missed at first** and led to stronger checks (the
 change is kept, the check was extended, then re-confirmed):
